@@ -255,6 +255,22 @@ def run(ctx):
             if io.nodes[i].get("op") == "<<" and io.pos_of(i) is not None and io.pos_of(i)[0] in l["body"] and re.search(r"\b%s\b" % re.escape(SINK), io.text(i)) \
                     and re.search(r"elem\(\*?%s\)|\(?\*%s\)?\[" % (re.escape("var:" + QL), re.escape("var:" + QL)), Xio(i)):
                 writes.append(i)
+    # the same pass spelled std::for_each(q->begin(), q->end(), [&sink](auto& line) { sink << line; })
+    foreach_nodes = []
+    for i in io.calls():
+        n_ = io.nodes[i]
+        if not re.search(r"\bfor_each\b", n_.get("callee") or n_.get("cname") or "") or len(n_.get("args", [])) != 3 or io.pos_of(i) is None:
+            continue
+        if not (re.match(r"^%s->c?begin\(\)$" % re.escape(QL), io.text(n_["args"][0])) and re.match(r"^%s->c?end\(\)$" % re.escape(QL), io.text(n_["args"][1]))):
+            continue
+        lam = P.fns.get(io.nodes[io.strip(n_["args"][2])].get("lusr"))
+        if lam is None or len(lam.params) != 1:
+            continue
+        lw = [j for j in lam.calls() if lam.nodes[j].get("op") == "<<" and re.search(r"\b%s\b" % re.escape(SINK), lam.text(j)) and
+              re.search(r"\b%s\b" % re.escape(lam.params[0]["name"]), lam.text(j))]
+        if lw:
+            foreach_nodes.append(i)
+            writes.append(i)
     ctx.check(len(lp) >= 1 and bool(writes), "flusher-writes-held-queue", "anchor", io.loc(), "flusher writes its queue to the sink", "flusher does not write its queue")
     if lp:
         L = lp[0]
@@ -271,6 +287,8 @@ def run(ctx):
                 tgt = r_ if io.pos_of(r_) is not None else next((x for x in io.walk(r_) if io.pos_of(x) is not None), None)
                 if tgt is not None:
                     ev.setdefault(tgt, []).append(("set", "write-loop"))
+        for i in foreach_nodes:
+            ev.setdefault(i, []).append(("set", "write-loop"))
         fi = iter_flow(ctx, io, L, ev)
         ok = True
         for b in back_sources(L):
